@@ -149,6 +149,12 @@ func cmdCheck(w *World, cfg *RunCfg, prop, replay string, t0 time.Time) int {
 		results = append(results, w.formatDelegation()...)
 	}
 	results = append(results, w.apiForwarding(prop)...)
+	if prop == "C03" || prop == "C09" {
+		results = append(results, w.formatDiscipline()...)
+	}
+	if prop == "C18" {
+		results = append(results, w.globalStateCalls()...)
+	}
 	if prop == "C01" || prop == "C11" || prop == "C12" {
 		results = append(results, w.registryTable(prop)...)
 	}
@@ -480,7 +486,7 @@ func propertyCarrying(name string) bool {
 		return false
 	}
 	k := name[i+1:]
-	for _, p := range []string{"post.", "assert.", "maintains.", "encoder.safe", "nilin.nilout", "inv.", "delegates", "forwards", "LeafDecoder", "WrapperDecoder", "MultiCause", "LeafEncoder", "WrapperEncoder"} {
+	for _, p := range []string{"post.", "assert.", "maintains.", "encoder.safe", "nilin.nilout", "inv.", "delegates", "forwards", "formatarg.", "LeafDecoder", "WrapperDecoder", "MultiCause", "LeafEncoder", "WrapperEncoder"} {
 		if strings.HasPrefix(k, p) {
 			return true
 		}
